@@ -782,6 +782,25 @@ class ProgGen:
                 continue
             used.add(n)
             kw.append([n, e])
+        if gcols and rng.random() < 0.3:
+            # grouping keys may be used without an aggregate: alone, under a cast, in arithmetic, next to an aggregate
+            key, kf_ = rng.choice(gcols)
+            a, fam = self.eg.agg(sc, 0, False, None)
+            if kf_ == "int":
+                forms = [key, {"k": "cast", "e": key, "to": rng.choice(["Float64", "String", "Int32"])}, fn("add", key, lit(1)),
+                         fn("mul", {"k": "cast", "e": key, "to": "Float64"}, lit(0.5))]
+                if fam in ("int", "float"):
+                    forms += [fn("add", {"k": "cast", "e": key, "to": "Float64"}, a), fn("add", {"k": "cast", "e": fn("mul", key, lit(2)), "to": "Int32"}, a) if fam == "int" else fn("sub", a, key)]
+            elif kf_ == "bool":
+                forms = [key, {"k": "cast", "e": key, "to": "Int64"}, fn("invert", key)]
+            elif kf_ == "str":
+                forms = [key, fn("str.len", key), fn("add", key, lit("!"))]
+            else:
+                forms = [key]
+            n = self.fresh_name(t, p_overwrite=0.0)
+            if n not in used:
+                kw.append([n, rng.choice(forms)])
+                self.features.add("group_key_in_summarize")
         return {"in": h, "out": self.new_handle(), "verb": "summarize", "kw": kw}
 
     def step_alias(self, h, keep=None):
